@@ -481,7 +481,7 @@ theorem csim_afterH (n : Nat) (hB : CSimB gen X n) (pc p : List Nat) (hs : List 
 /-- The `finally` step of a lowered `try`. -/
 theorem csim_finish (n : Nat) (hB : CSimB gen X n) (pc p : List Nat) (fin : Block)
     (hcf : CleanB (Hid gen) fin) (hff : finOKB fin = true)
-    (hjf : jumpFreeB fin = true) (hpc : pc.length < p.length)
+    (hjf : escFreeB fin = true) (hpc : pc.length < p.length)
     {hit : Bool} {oa oa' o : Out} {σ' τa τa' σ1 : St}
     (hq : quietB fin = true ∨ hit = false)
     (hag : Agree (Hid gen) τa τa') (hp : CPost (gen pc) hit oa oa' σ' τa') (hfr : Frame gen p.length pc σ' τa')
@@ -491,7 +491,10 @@ theorem csim_finish (n : Nat) (hB : CSimB gen X n) (pc p : List Nat) (fin : Bloc
       CPost (gen pc) (hit || (cntB gen (gen pc) (2 :: p) false fin).2) o o' σ' σ1' ∧
       Frame gen p.length pc σ' σ1' := by
   obtain ⟨of, σf, hf, hcase⟩ := finish_some hfin
-  have hhitf : (cntB gen (gen pc) (2 :: p) false fin).2 = false := cntB_jumpFree gen (gen pc) _ _ fin hjf
+  have hhitf : (cntB gen (gen pc) (2 :: p) false fin).2 = false := by
+    rw [cntB_hit]
+    simp only [escFreeB, Bool.and_eq_true, Bool.not_eq_true'] at hjf
+    exact hjf.1.2
   obtain ⟨m, σf', of', hxf, hagf, hpf, hfrf⟩ :=
     hB fin pc (2 :: p) false τa τa' of σf hcf hff (by simp; omega) hag
       (by intro h; rcases h with h | h
@@ -499,7 +502,7 @@ theorem csim_finish (n : Nat) (hB : CSimB gen X n) (pc p : List Nat) (fin : Bloc
           · rw [hhitf] at h; cases h) hf
   have hcurf : σf'.env (gen pc) = τa'.env (gen pc) := hpf.2.2 hhitf
   have hofc : of ≠ .cont := by
-    rcases jumpFreeB_outcome X hjf hf with h | ⟨e, h⟩ <;> simp [h]
+    rcases escFreeB_outcome X hjf hf with h | ⟨e, h⟩ <;> simp [h]
   obtain ⟨hof', _⟩ := hpf.2.1 hofc
   rw [hof'] at hxf
   have hfr' : Frame gen p.length pc σ' σf' := hfr.trans (hfrf.mono (by simp; omega))
